@@ -95,5 +95,5 @@ func w1GenProduceHeavy(r *rand.Rand, c *simrt.Case, nclients, maxOps int, prop s
 // hooks that later files replace with real implementations
 var (
 	w1ExtraOp    = func(w *w1, client, seq int, op simrt.Op) {}
-	w1Authorizer = func(w *w1) *acl.Authorizer { return nil }
+	w1Authorizer = func(w *w1) *acl.Authorizer { return w1BuildACL(w) }
 )
